@@ -2130,7 +2130,7 @@ def check_C20(ck):
     base = ck.run([("sequential", w) for w in work])
     ref = [a for (a, _) in base]
     # sustained concurrent preparation of distinct G2 points (a racy process-wide memo needs thousands of overlapping calls)
-    st = [("concurrent-prepare-stress", "preparestress %s;%s;%s %x" % (g2.A(g2.gen), g2.A(g2.sub_pt(rng)), g2.A(g2.sub_pt(rng)), 1500 if ck.tier != "thorough" else 6000))]
+    st = [("concurrent-prepare-stress", "preparestress %s;%s;%s %x" % (g2.A(g2.gen), g2.A(g2.sub_pt(rng)), g2.A(g2.sub_pt(rng)), 3000 if ck.tier != "thorough" else 20000))]
     for c_, (impl_, _) in zip(st, ck.run(st)):
         ck.expect(impl_ == "ok", "concurrent", c_[1][:100], impl_, "ok", "16 threads preparing 3 distinct G2 points concurrently get the sequential results")
     for w, r in zip(work, ref):
